@@ -373,6 +373,83 @@ fn runtime_families(t: &mut Tally, shard: usize, nshards: usize, tier: Tier) {
             }
         }
     }
+    // recursion: the same call instruction is on the stack several times, once per activation
+    // (direct recursion through one call site, through a method, mutual recursion, and recursion
+    // where the recursive call is an argument / operand)
+    if shard == 5 % nshards {
+        for fa in 0..FILLERS.len() {
+            for f in FAULT_STMTS {
+                for depth in 0..=3usize {
+                    for (ci, call) in ["rec(n - 1)", "res = rec(n - 1)", "return rec(n - 1)", "res = 1 + rec(n - 1)", "sink(0, rec(n - 1))"].iter().enumerate() {
+                        let mut l = Lines { v: vec![] };
+                        l.v.push("sink = |args...| null".into());
+                        l.v.push("nv = null".into());
+                        l.v.push("rec = |n|".into());
+                        l.push_block(2, FILLERS[fa]);
+                        l.v.push("  if n == 0".into());
+                        let fault = l.v.len();
+                        l.v.push(format!("    {f}"));
+                        l.v.push("  else".into());
+                        let site = l.v.len();
+                        l.v.push(format!("    {call}"));
+                        l.v.push("  null".into());
+                        l.push_block(0, FILLERS[(fa + ci) % FILLERS.len()]);
+                        let top = l.v.len();
+                        l.v.push(format!("rec({depth})"));
+                        let mut expected = vec![fault];
+                        expected.extend(std::iter::repeat(site).take(depth));
+                        expected.push(top);
+                        check_fault_program(t, "faults-under-recursion", &Built { src: l.v.join("
+") + "
+", expected }, false);
+                    }
+                    // mutual recursion: ping calls pong calls ping ...
+                    let mut l = Lines { v: vec![] };
+                    l.v.push("nv = null".into());
+                    l.v.push("export ping = |n|".into());
+                    l.v.push("  if n == 0".into());
+                    let fault = l.v.len();
+                    l.v.push(format!("    {f}"));
+                    let ping_site = l.v.len();
+                    l.v.push("  pong(n - 1)".into());
+                    l.v.push("export pong = |n|".into());
+                    l.push_block(2, FILLERS[fa]);
+                    let pong_site = l.v.len();
+                    l.v.push("  ping(n)".into());
+                    let top = l.v.len();
+                    l.v.push(format!("ping({depth})"));
+                    let mut expected = vec![fault];
+                    for _ in 0..depth {
+                        expected.push(pong_site);
+                        expected.push(ping_site);
+                    }
+                    expected.push(top);
+                    check_fault_program(t, "faults-under-recursion", &Built { src: l.v.join("
+") + "
+", expected }, false);
+                    // recursion through a method
+                    let mut l = Lines { v: vec![] };
+                    l.v.push("nv = null".into());
+                    l.v.push("obj =".into());
+                    l.v.push("  down: |n|".into());
+                    l.v.push("    if n == 0".into());
+                    let fault = l.v.len();
+                    l.v.push(format!("      {f}"));
+                    let site = l.v.len();
+                    l.v.push("    self.down(n - 1)".into());
+                    l.push_block(0, FILLERS[fa]);
+                    let top = l.v.len();
+                    l.v.push(format!("obj.down({depth})"));
+                    let mut expected = vec![fault];
+                    expected.extend(std::iter::repeat(site).take(depth));
+                    expected.push(top);
+                    check_fault_program(t, "faults-under-recursion", &Built { src: l.v.join("
+") + "
+", expected }, false);
+                }
+            }
+        }
+    }
     // faults inside callbacks of lazily consumed chains: the first frame is the callback's line
     if shard == 0 {
         for (fa, f) in (0..FILLERS.len()).flat_map(|a| FAULT_EXPRS.iter().map(move |f| (a, *f))) {
